@@ -103,6 +103,13 @@ SysPrefix == { [c |-> "sysprefix", top |-> n, list |-> l] : n \in { 30, 31, 32, 
 \* keys that are empty words: alone, twice, next to a real key (e = empty, a = a word)
 EmptyKey == { [c |-> "emptykey", kind |-> k, keys |-> ks] : k \in { "watch", "syscall" }, ks \in { "e", "ee", "ae", "ea", "eae" } }
 
+\* a key given as a filter next to other keys (a second -F key=, -k flags), behind a filter of every kind of field:
+\* where a rule's strings sit depends on which of the fields before them are strings
+TwoKeysBefore == { "none", "pid", "ppid", "uid", "auid", "gid", "obj_uid", "pers", "a0", "a3", "exit", "success", "devmajor", "devminor",
+                   "inode", "filetype", "perm", "saddr_fam", "subj_user", "subj_role", "subj_type", "subj_sen", "subj_clr",
+                   "obj_user", "obj_role", "obj_type", "obj_lev_low", "obj_lev_high", "exe", "path", "dir" }
+TwoKeys == { [c |-> "twokeys", before |-> f, form |-> x] : f \in TwoKeysBefore, x \in { "F", "Fk", "FF", "Fkk", "FFk" } }
+
 \* C13: every header word of a valid rule replaced by boundary values; truncations
 HeaderWords == 1..260
 Boundary == { "0", "1", "63", "64", "65", "255", "65536", "2147483647", "2147483648", "4294967294", "4294967295" }
@@ -117,7 +124,7 @@ Flags == FlagCases
 
 All == (IF "fop" \in Family THEN Fop ELSE {}) \cup (IF "shape" \in Family THEN Shape ELSE {})
        \cup (IF "cmp" \in Family THEN Cmp ELSE {}) \cup (IF "watch" \in Family THEN Watch \cup WLike \cup EmptyKey ELSE {})
-       \cup (IF "nfields" \in Family THEN NFields ELSE {}) \cup (IF "sysnum" \in Family THEN SysNum \cup SysBig \cup ArchNum \cup SysPrefix ELSE {})
+       \cup (IF "nfields" \in Family THEN NFields \cup TwoKeys ELSE {}) \cup (IF "sysnum" \in Family THEN SysNum \cup SysBig \cup ArchNum \cup SysPrefix ELSE {})
        \cup (IF "decode" \in Family THEN Decode ELSE {}) \cup (IF "flags" \in Family THEN Flags ELSE {})
 
 Init == c \in All
